@@ -362,6 +362,7 @@ inductive BalanceResult (σ α : Type) where
   | violation (idx : Nat) (key : Int) (net : α)
   /-- an exception escaping from `composition_violation` -/
   | raised (e : Err)
+  deriving DecidableEq
 
 /-- first `(net, k)` of `zip(net, keys)` with `net != 0` -/
 def firstViolation [DecidableEq α] : List α → List Int → Option (Int × α)
@@ -422,9 +423,27 @@ def attrViolation (r : Reaction σ ρ) (attrs : List (σ × α)) : α :=
 
 end Balance
 
-/-! ## Analytic elimination from linear invariants (`linear_dependencies`, ode.py:439-470) -/
+/-! ## Analytic elimination from linear invariants (`linear_dependencies`, ode.py, `analytic_solver`)
+
+The repaired solver (fix 16e59b0) works on the reduced matrix `rA` of the composition vectors in two phases:
+(1) for every pivot row `ri` it scans the columns for the first non-zero entry whose substance is allowed, makes that
+column a pivot column of the *current* matrix (normalise row `ri`, clear the column in every other row) and records
+`(ri, idx)`; (2) for every recorded pair it offers `y idx = y₀ idx − Σ_{di ≠ idx} rA[ri, di]·(y di − y₀ di)`.
+`Matrix.rref` itself is sympy's (delegated); the model starts from its output. -/
 section Elim
 variable {σ α : Type} [DecidableEq σ]
+
+/-- a matrix as the list of its rows -/
+abbrev Mat (α : Type) := List (List α)
+
+/-- `rA[i, j]` (reads outside the matrix do not occur: every loop of the solver runs over `range(rows)`, `range(ny)`) -/
+def entry [NatCast α] (M : Mat α) (i j : Nat) : α :=
+  match M[i]? with
+  | none => ((0 : Nat) : α)
+  | some row =>
+    match row[j]? with
+    | none => ((0 : Nat) : α)
+    | some x => x
 
 /-- `_preferred is None or key in _preferred` -/
 def allowed (preferred? : Option (List σ)) (key : σ) : Bool :=
@@ -432,8 +451,8 @@ def allowed (preferred? : Option (List σ)) (key : σ) : Bool :=
   | none => true
   | some p => decide (key ∈ p)
 
-/-- the scan `for idx in range(ci1st, odesys.ny)` of one reduced row: first column with a non-zero entry whose
-    substance is allowed (`_preferred is None or key in _preferred`); `fuel` = number of columns left to scan -/
+/-- the scan `for idx in range(odesys.ny)` of one row: first column with a non-zero entry whose substance is allowed;
+    `fuel` = number of columns left to scan -/
 def chooseIdx [DecidableEq α] [NatCast α] (row : Nat → α) (names : Nat → σ) (preferred? : Option (List σ)) :
     (idx fuel : Nat) → Option Nat
   | _, 0 => none
@@ -441,24 +460,40 @@ def chooseIdx [DecidableEq α] [NatCast α] (row : Nat → α) (names : Nat → 
     if row idx ≠ ((0 : Nat) : α) ∧ allowed preferred? (names idx) = true then some idx
     else chooseIdx row names preferred? (idx + 1) fuel
 
-/-- the offered expression (ode.py:452-459), evaluated:
-    `y0[idx] - sum(rA[ri, di]*(y[di] - y0[di]) for di in range(ci1st, ny) if di != idx) / rA[ri, idx]` -/
-def elimExpr [Add α] [Sub α] [Mul α] [Div α] [NatCast α] (row y0 y : Nat → α) (ci ny idx : Nat) : α :=
-  y0 idx - (((List.range' ci (ny - ci)).filter (fun di => di ≠ idx)).foldl
-    (fun acc di => acc + row di * (y di - y0 di)) ((0 : Nat) : α)) / row idx
+/-- entry `(rj, di)` after "make `idx` the pivot column of row `ri`":
+    `rA[ri, :] = rA[ri, :] / rA[ri, idx]`, then for every other row with `rA[rj, idx] != 0`:
+    `rA[rj, :] = rA[rj, :] - rA[rj, idx] * rA[ri, :]` -/
+def pivotEntry [DecidableEq α] [Sub α] [Mul α] [Div α] [NatCast α] (M : Mat α) (ri idx rj di : Nat) : α :=
+  if rj = ri then entry M ri di / entry M ri idx
+  else if entry M rj idx ≠ ((0 : Nat) : α) then entry M rj di - entry M rj idx * (entry M ri di / entry M ri idx)
+  else entry M rj di
 
-/-- the loop over `enumerate(pivots)` with the shrinking `_preferred` list: for each reduced row the chosen column (if any).
-    Returns the choices `(ri, idx)` and what is left of `_preferred` (non-empty ⇒ `ValueError`). -/
-def elimPlan [DecidableEq α] [NatCast α] (names : Nat → σ) (ny : Nat) :
-    List ((Nat → α) × Nat) → Nat → Option (List σ) → List (Nat × Nat) × Option (List σ)
-  | [], _, pref => ([], pref)
-  | (row, ci) :: t, ri, pref =>
-    match chooseIdx row names pref ci (ny - ci) with
-    | none => elimPlan names ny t (ri + 1) pref
+/-- the matrix (`m` rows, `ny` columns) after the pivot step -/
+def pivotOn [DecidableEq α] [Sub α] [Mul α] [Div α] [NatCast α] (m ny : Nat) (M : Mat α) (ri idx : Nat) : Mat α :=
+  (List.range m).map fun rj => (List.range ny).map fun di => pivotEntry M ri idx rj di
+
+/-- phase 1, the loop `for ri in range(len(pivots))` with the shrinking `_preferred` list. Returns the final matrix, the
+    recorded pairs `(ri, idx)` and what is left of `_preferred` (non-empty ⇒ `ValueError`). -/
+def elimLoop [DecidableEq α] [Sub α] [Mul α] [Div α] [NatCast α] (m ny : Nat) (names : Nat → σ) :
+    (ri fuel : Nat) → Mat α → Option (List σ) → Mat α × List (Nat × Nat) × Option (List σ)
+  | _, 0, M, pref => (M, [], pref)
+  | ri, fuel + 1, M, pref =>
+    match chooseIdx (entry M ri) names pref 0 ny with
+    | none => elimLoop m ny names (ri + 1) fuel M pref
     | some idx =>
-      let pref' := pref.map fun p => p.erase (names idx)
-      let (cs, left) := elimPlan names ny t (ri + 1) pref'
-      ((ri, idx) :: cs, left)
+      let res := elimLoop m ny names (ri + 1) fuel (pivotOn m ny M ri idx) (pref.map fun p => p.erase (names idx))
+      (res.1, (ri, idx) :: res.2.1, res.2.2)
+
+/-- phase 1 for `npiv = len(pivots)` pivot rows -/
+def elimPlan [DecidableEq α] [Sub α] [Mul α] [Div α] [NatCast α] (m ny : Nat) (names : Nat → σ) (npiv : Nat) (M : Mat α)
+    (preferred? : Option (List σ)) : Mat α × List (Nat × Nat) × Option (List σ) :=
+  elimLoop m ny names 0 npiv M preferred?
+
+/-- phase 2, the offered expression evaluated:
+    `y0[idx] - sum(rA[ri, di]*(y[di] - y0[di]) for di in range(ny) if di != idx)` -/
+def elimExpr [Add α] [Sub α] [Mul α] [NatCast α] (row y0 y : Nat → α) (ny idx : Nat) : α :=
+  y0 idx - ((List.range ny).filter (fun di => di ≠ idx)).foldl
+    (fun acc di => acc + row di * (y di - y0 di)) ((0 : Nat) : α)
 
 end Elim
 
